@@ -10,7 +10,7 @@ Grammar (anything else raises `Unsupported`, which the caller turns into a fallb
            | const NAME : type = expr ;      | enum NAME { Variant[(types)] , ... }
            | struct NAME { field : type , ... }   | impl [Trait for] NAME { item* }
   stmt   ::= let [mut] pat [: type] [= expr] ;  | place (= | += | -= | *=) expr ;  | expr ;  | const ... ;
-           | return [expr] ;  | if ... | match ... | for pat in expr block
+           | return [expr] ;  | if ... | match ... | for pat in expr block | while expr block
   expr   ::= range < or < and < cmp < add < mul < cast (`as`) < unary (! - & &mut *) < postfix < primary
   postfix::= .name[::<type>](args) | .name | .0 | [expr] | (args) | ?        (`?` is lowered only on Option, in a function returning Option)
   primary::= literal | path | ( expr[, expr]* ) | [ expr, ... ] | if | match | block | name!( ... ) | |params| expr | return | continue | break
@@ -270,12 +270,16 @@ class Parser:
     def expr(self, no_struct=False):
         return self.range_(no_struct)
     def range_(self, ns):
-        if self.at(".."):
-            raise Unsupported("open range")
+        if self.at("..") or self.at("..="):
+            # `..` / `..b` (only meaningful as an index: `x[..]`, `x[..b]`)
+            inc = self.eat().text == "..="
+            if self.at("]"): return ("range", None, None, inc)
+            return ("range", None, self.or_(ns), inc)
         a = self.or_(ns)
         if self.at("..") or self.at("..="):
             inc = self.eat().text == "..="
-            if self.at("]") or self.at(")") or self.at("{"):
+            if self.at("]"): return ("range", a, None, inc)
+            if self.at(")") or self.at("{"):
                 raise Unsupported("open range")
             b = self.or_(ns)
             return ("range", a, b, inc)
@@ -320,7 +324,9 @@ class Parser:
             self.eat(); return ("unary", "*", self.unary(ns))
         if self.at("&") or self.at("&&"):
             self.eat()
-            if self.at("mut"): self.eat()
+            if self.at("mut"):
+                self.eat()
+                return ("unary", "&mut", self.unary(ns))
             return ("unary", "&", self.unary(ns))
         return self.postfix(ns)
     def args(self):
@@ -412,12 +418,16 @@ class Parser:
             self.eat(close)
             return ("matches", e, pat)
         if name in ("format", "write", "writeln", "assert", "assert_eq", "panic", "vec", "unreachable", "println"):
-            out = []
+            out, repeat = [], False
             while not self.at(close):
                 out.append(self.expr())
                 if self.at(","): self.eat(",")
-                elif self.at(";"): self.eat(";")
+                elif self.at(";"):
+                    self.eat(";"); repeat = True
             self.eat(close)
+            if repeat:
+                if name != "vec" or len(out) != 2: raise Unsupported(f"{name}![..; ..]")
+                return ("macro", "vec_repeat", out)
             return ("macro", name, out)
         raise Unsupported(f"macro {name}!")
     def primary(self, ns):
@@ -529,8 +539,13 @@ class Parser:
         if self.at("for"):
             self.eat("for"); pat = self.pattern(); self.eat("in"); it = self.expr(no_struct=True); body = self.block()
             return ("for", pat, it, body), False
-        if self.at("while") or self.at("loop"):
-            raise Unsupported("while / loop")
+        if self.at("while"):
+            self.eat("while")
+            if self.at("let"): raise Unsupported("while let")
+            c = self.expr(no_struct=True); body = self.block()
+            return ("while", c, body), False
+        if self.at("loop"):
+            raise Unsupported("loop")
         if self.at("fn") or self.at("use") or self.at("type") or self.at("struct") or self.at("enum") or self.at("impl"):
             raise Unsupported("nested item")
         e = self.expr()
@@ -641,7 +656,7 @@ class SourceFile:
         if p.at("<"):
             p.generic_args_decl() if hasattr(p, "generic_args_decl") else self._skip_generics(p)
         p.eat("(")
-        params = []
+        params, mutrefs = [], []
         while not p.at(")"):
             if p.at("&") or p.at("self") or (p.at("mut") and p.at("self", 1)):
                 # self receiver (`mut name: T` is an ordinary parameter, handled below)
@@ -651,7 +666,9 @@ class SourceFile:
                 p.eat("self"); params.append(("self", ("named", "Self", [])))
             else:
                 if p.at("mut"): p.eat()
-                nm = p.ident(); p.eat(":"); params.append((nm, p.type_()))
+                nm = p.ident(); p.eat(":")
+                if p.at("&") and (p.at("mut", 1) or (p.peek(1).kind == "life" and p.at("mut", 2))): mutrefs.append(nm)
+                params.append((nm, p.type_()))
             if p.at(","): p.eat(",")
         p.eat(")")
         ret = ("unit",)
@@ -659,7 +676,7 @@ class SourceFile:
             p.eat("->"); ret = p.type_()
         p.i = j
         body = p.block()
-        return {"name": name, "owner": key[0], "params": params, "ret": ret, "body": body}
+        return {"name": name, "owner": key[0], "params": params, "ret": ret, "body": body, "mutrefs": mutrefs, "ast": True}
 
     def _skip_generics(self, p):
         depth = 0
